@@ -578,11 +578,23 @@ fn draw_line(rng: &mut Rng, distinct: usize, invalid: bool) -> Vec<u8> {
     } else {
         LINE_POOL[rng.usize(distinct.min(LINE_POOL.len()))].to_vec()
     };
-    match rng.weighted(&[12, 2, 1]) {
-        0 => l.push(b'\n'),
-        1 => l.extend_from_slice(b"\r\n"),
-        _ => l.push(b'\r'),
+    let term: &[u8] = match rng.weighted(&[12, 2, 1]) {
+        0 => b"\n",
+        1 => b"\r\n",
+        _ => b"\r",
+    };
+    // rarely a long line whose length (terminator included) sits on or next
+    // to a power of two
+    if rng.chance(1, 40) {
+        const EDGES: [usize; 8] = [64, 128, 256, 512, 1024, 4096, 8192, 65536];
+        let total = EDGES[rng.weighted(&[2, 2, 4, 2, 2, 2, 1, 1])] + rng.usize(3) - 1;
+        let want = total.saturating_sub(term.len());
+        let fill = b"abcdefgh"[rng.usize(8)];
+        while l.len() < want {
+            l.push(fill);
+        }
     }
+    l.extend_from_slice(term);
     l
 }
 
